@@ -409,11 +409,14 @@ func H_C17_FlushAll() {
 		verifReach("C17.flushall.after-earlier-close")
 	}
 	var err error
+	// whatever is found by ranging over a built-in map is found in no particular order
+	verifMapOrder(true)
 	if nondetBool() {
 		err = s.w.FlushAll(gMaybeDoneCtx())
 	} else {
 		err = s.w.Close(gMaybeDoneCtx())
 	}
+	verifMapOrder(false)
 	for i := 0; i < s.n; i++ {
 		verifAssert(s.composedCount(s.grp[i].events) <= 1, "C11.flushall.group-composed-at-most-once")
 	}
